@@ -18,6 +18,7 @@ func init() {
 	register("SER-6", "version gate", 2, ruleSER6)
 	register("SER-7", "all five working-memory maps are handled by every traversal", 5, ruleSER7)
 	register("SER-8", "recover barrier of LoadKnowledgeBaseFromReader", 1, ruleSER8)
+	register("SER-9", "working-memory maps are catalogued and rebuilt entry for entry (ids of the right nodes)", 10, ruleSER9)
 }
 
 func isMetaType(t types.Type) (string, bool) {
@@ -907,4 +908,198 @@ func rangesOverField(fn *ssa.Function, f *types.Var) bool {
 		}
 	}
 	return false
+}
+
+// SER-9: value provenance of the working-memory traversals.
+func ruleSER9(c *Ctx) {
+	p := c.P
+	mk := p.Method("ast", "WorkingMemory", "MakeCatalog")
+	bd := p.Method("ast", "Catalog", "BuildKnowledgeBase")
+	if mk == nil || bd == nil {
+		c.AnchorLost("WorkingMemory.MakeCatalog / BuildKnowledgeBase")
+		return
+	}
+	wm := p.Named("ast", "WorkingMemory").Underlying().(*types.Struct)
+	catSt := p.Named("ast", "Catalog").Underlying().(*types.Struct)
+	loopsM := naturalLoops(mk)
+	loopsB := naturalLoops(bd)
+	for i := 0; i < wm.NumFields(); i++ {
+		f := wm.Field(i)
+		mt, ok := f.Type().Underlying().(*types.Map)
+		if !ok {
+			continue
+		}
+		cname := "Memory" + strings.ToUpper(f.Name()[:1]) + f.Name()[1:]
+		var cf *types.Var
+		for j := 0; j < catSt.NumFields(); j++ {
+			if catSt.Field(j).Name() == cname {
+				cf = catSt.Field(j)
+			}
+		}
+		if cf == nil {
+			continue
+		}
+		_, keyIsString := mt.Key().Underlying().(*types.Basic)
+		// --- MakeCatalog: inside the range over wm.f, the catalogue entry is keyed by (the key | the key's AstID) and holds
+		// the AstID of (the value | each element of the value)
+		isAstIDOf := func(v ssa.Value, pred func(ssa.Value) bool) bool {
+			lf, base := fieldLoad(v)
+			return lf != nil && lf.Name() == "AstID" && pred(base)
+		}
+		okM, whyM := false, "no update of "+cname+" inside a range over "+f.Name()
+		for _, b := range mk.Blocks {
+			for _, in := range b.Instrs {
+				var mapV, keyV, valV, elemIdx ssa.Value
+				switch x := in.(type) {
+				case *ssa.MapUpdate:
+					mapV, keyV, valV = x.Map, x.Key, x.Value
+				case *ssa.Store:
+					// element store into catalogue list: cat.M[key][i] = j.AstID
+					if ia, ok := x.Addr.(*ssa.IndexAddr); ok {
+						if lk, ok := ia.X.(*ssa.Lookup); ok {
+							mapV, keyV, valV, elemIdx = lk.X, lk.Index, x.Val, ia.Index
+						}
+					}
+				}
+				if mapV == nil {
+					continue
+				}
+				if mf, _ := fieldLoad(mapV); mf != cf {
+					continue
+				}
+				l := innermostLoopOfAny(loopsM, b, func(l *Loop) bool {
+					x := rangeOperand(l)
+					if x == nil {
+						return false
+					}
+					rf, rb := fieldLoad(x)
+					return rf == f && rb == ssa.Value(receiver(mk))
+				})
+				if l == nil {
+					whyM = cname + " is filled outside the range over " + f.Name()
+					continue
+				}
+				keyOK := isRangeKeyOf(keyV, l)
+				if !keyIsString {
+					keyOK = isAstIDOf(keyV, func(b ssa.Value) bool { return isRangeKeyOf(b, l) })
+				}
+				valOK := false
+				if _, isSlice := mt.Elem().Underlying().(*types.Slice); isSlice {
+					// a fresh list, or the AstID of an element of the range value
+					if _, isMake := valV.(*ssa.MakeSlice); isMake {
+						valOK = true
+					} else {
+						valOK = isAstIDOf(valV, func(b ssa.Value) bool {
+							s, idx := elemOfSlice(b)
+							return s != nil && isRangeValueOf(s, l) && idx == elemIdx
+						})
+					}
+				} else {
+					valOK = isAstIDOf(valV, func(b ssa.Value) bool { return isRangeValueOf(b, l) })
+				}
+				if keyOK && valOK {
+					okM = true
+				} else {
+					okM = false
+					whyM = fmt.Sprintf("entry of %s is not (key%s, AstID of the mapped node): keyOK=%v valueOK=%v", cname, map[bool]string{true: "", false: ".AstID"}[keyIsString], keyOK, valOK)
+					break
+				}
+			}
+		}
+		c.Check(okM, "WorkingMemory.MakeCatalog / "+f.Name()+" catalogued entry for entry", p.Pos(mk.Pos()), "key and node ids taken from the same map entry", whyM)
+		// --- BuildKnowledgeBase: inside the range over cat.cf, the wm entry is keyed by (the key | importTable[key]) and
+		// holds importTable[value] (or importTable[element])
+		viaImport := func(v ssa.Value, pred func(ssa.Value) bool) bool {
+			found := false
+			var rec func(v ssa.Value, d int)
+			rec = func(v ssa.Value, d int) {
+				if v == nil || found || d > 8 {
+					return
+				}
+				switch x := v.(type) {
+				case *ssa.TypeAssert:
+					rec(x.X, d+1)
+				case *ssa.Extract:
+					rec(x.Tuple, d+1)
+				case *ssa.Phi:
+					for _, e := range x.Edges {
+						rec(e, d+1)
+					}
+				case *ssa.Lookup:
+					if pred(x.Index) {
+						found = true
+					}
+				case *ssa.UnOp:
+					if a, ok := x.X.(*ssa.Alloc); ok {
+						for _, r := range *a.Referrers() {
+							if st, ok := r.(*ssa.Store); ok && st.Addr == ssa.Value(a) {
+								rec(st.Val, d+1)
+							}
+						}
+					}
+				}
+			}
+			rec(v, 0)
+			return found
+		}
+		okB, whyB := false, "no update of "+f.Name()+" inside a range over "+cname
+		for _, b := range bd.Blocks {
+			for _, in := range b.Instrs {
+				var mapV, keyV, valV, elemIdx ssa.Value
+				switch x := in.(type) {
+				case *ssa.MapUpdate:
+					mapV, keyV, valV = x.Map, x.Key, x.Value
+				case *ssa.Store:
+					if ia, ok := x.Addr.(*ssa.IndexAddr); ok {
+						if lk, ok := ia.X.(*ssa.Lookup); ok {
+							mapV, keyV, valV, elemIdx = lk.X, lk.Index, x.Val, ia.Index
+						}
+					}
+				}
+				if mapV == nil {
+					continue
+				}
+				if mf, _ := fieldLoad(mapV); mf != f {
+					continue
+				}
+				l := innermostLoopOfAny(loopsB, b, func(l *Loop) bool {
+					x := rangeOperand(l)
+					if x == nil {
+						return false
+					}
+					rf, _ := fieldLoad(x)
+					return rf == cf
+				})
+				if l == nil {
+					whyB = f.Name() + " is filled outside the range over " + cname
+					continue
+				}
+				keyOK := isRangeKeyOf(keyV, l)
+				if !keyIsString {
+					keyOK = viaImport(keyV, func(k ssa.Value) bool { return isRangeKeyOf(k, l) })
+				}
+				valOK := false
+				if _, isSlice := mt.Elem().Underlying().(*types.Slice); isSlice {
+					if _, isMake := valV.(*ssa.MakeSlice); isMake {
+						valOK = true
+					} else {
+						valOK = viaImport(valV, func(k ssa.Value) bool {
+							s, idx := elemOfSlice(k)
+							return s != nil && isRangeValueOf(s, l) && idx == elemIdx
+						})
+					}
+				} else {
+					valOK = viaImport(valV, func(k ssa.Value) bool { return isRangeValueOf(k, l) })
+				}
+				if keyOK && valOK {
+					okB = true
+				} else {
+					okB = false
+					whyB = fmt.Sprintf("entry of %s is not rebuilt from the same catalogue entry: keyOK=%v valueOK=%v", f.Name(), keyOK, valOK)
+					break
+				}
+			}
+		}
+		c.Check(okB, "BuildKnowledgeBase / "+f.Name()+" rebuilt entry for entry", p.Pos(bd.Pos()), "key and nodes resolved through the import table from the same catalogue entry", whyB)
+	}
 }
